@@ -866,7 +866,7 @@ func (x *Run) enterLoopHeader(fr *Frame, from, to *ssa.BasicBlock, st *State, lp
 		fr.loopHead[to] = hv
 	}
 	fr.cut[to] = true
-	st.events = append(st.events, Event{Name: fmt.Sprintf("loop:%s#%d", fr.fn.String(), lp.ordinal)})
+	st.events = append(st.events, Event{Name: fmt.Sprintf("loop:%s#%d", fr.fn.String(), lp.ordinal), Ret: Val{T: intLit(int64(st.nfresh)), S: SInt}})
 	st.trace = append(st.trace, fmt.Sprintf("loop%d", lp.ordinal))
 	return x.runBlock(fr, to, x.firstNonPhi(to), st)
 }
